@@ -469,7 +469,9 @@ def fold(pid, prop, tier, seed, recs, infra, t0, partial=False):
     }
     ev_dir = os.environ.get("VERIF_EVIDENCE_DIR") or os.path.join(ROOT, "evidence")
     os.makedirs(ev_dir, exist_ok=True)
-    with open(os.path.join(ev_dir, f"{pid}.json"), "w") as fh:
+    # development runs (--only / --scale < 1) must not replace the record of the registered command
+    name = f"{pid}.json" if not partial else f"{pid}.partial.json"
+    with open(os.path.join(ev_dir, name), "w") as fh:
         json.dump(evidence, fh, indent=1, default=str)
 
     print(f"{pid} tier={tier} seed={seed}: {evaluations} cases ({len(hashes_nt)} distinct non-trivial), "
